@@ -77,6 +77,7 @@ class Cases:
         self.sym = mir.Sym(body, ix)
         self.paths = []
         self.overflow = False
+        self.depth = 0
 
     # ------------------------------------------------------------------------------ evaluation
     def _variant_index(self, e):
@@ -116,7 +117,7 @@ class Cases:
             e = self.project(st, e, el)
         return e
 
-    def project(self, st, e, el):
+    def project(self, st, e, el, as_place=False):
         if el == "*":
             if e[0] == "ref":
                 e = e[1]
@@ -155,6 +156,8 @@ class Cases:
             e = ("index", e, ("const", el["ci"], "usize"))
         elif "sub" in el:
             e = ("subslice", e, el["sub"], el["to"])
+        if as_place:
+            return e  # naming a place to store into: neither the case's inputs nor remembered stores apply
         e = self._inp(e)
         t = expr_str(e)
         if t in st["mem"]:
@@ -246,7 +249,80 @@ class Cases:
             a = args[0]
             if a[0] == "agg" and a[2] == "Some" and a[3]:
                 return a[3][0]
+        # Option combinators on a known receiver: the closure is evaluated like any other pure function
+        if callee.startswith("std::option::Option::") and args and args[0][0] == "agg" and args[0][2] in ("Some", "None") and self.depth < 3:
+            name = callee.rsplit("::", 1)[-1]
+            recv = args[0]
+            if recv[2] == "None":
+                if name in ("and_then", "map", "filter", "and", "copied", "cloned"):
+                    return option("None")
+                if name == "is_some_and":
+                    return ("const", 0, "bool")
+                if name == "is_none_or":
+                    return ("const", 1, "bool")
+                if name in ("unwrap_or",) and len(args) == 2:
+                    return args[1]
+                if name == "map_or" and len(args) == 3:
+                    return args[1]
+                if name in ("or",) and len(args) == 2:
+                    return args[1]
+            elif recv[3]:
+                x = recv[3][0]
+                if name in ("copied", "cloned"):
+                    return recv
+                if name in ("and_then", "map", "is_some_and", "is_none_or", "filter") and len(args) == 2:
+                    r = self.pure_call(args[1], [x] if name != "filter" else [("ref", x)])
+                    if r is not None:
+                        if name == "and_then" or name in ("is_some_and", "is_none_or"):
+                            return r
+                        if name == "map":
+                            return option("Some", [r])
+                        if name == "filter" and r[0] == "const":
+                            return recv if r[1] else option("None")
+                if name == "map_or" and len(args) == 3:
+                    r = self.pure_call(args[2], [x])
+                    if r is not None:
+                        return r
+                if name in ("unwrap_or", "or") and len(args) == 2:
+                    return x if name == "unwrap_or" else recv
+        # a crate function (or closure) whose arguments are all known and which computes a value without touching anything
+        if self.depth < 3 and callee in self.ix.bodies and args and all(is_known(mir.strip_refs(a)) for a in args):
+            r = self.pure_call(("fn", callee), list(args))
+            if r is not None:
+                return r
         return ("call", callee, tuple(args))
+
+    def pure_call(self, f, args):
+        """Value of calling `f` (('fn', key) or a closure aggregate) on `args` when the callee, walked with those arguments
+        fixed, has exactly one outcome: one returning path, a known value, no store and no call left unfolded."""
+        if f[0] == "fn" and f[1] in self.ix.bodies:
+            body = self.ix.bodies[f[1]]
+            bound = list(args)
+            env_val = None
+        elif f[0] == "closure" and f[1] in self.ix.bodies:
+            body = self.ix.bodies[f[1]]
+            env_val = ("agg", "closure", None, tuple(f[2]))
+            bound = [env_val] + list(args)
+        else:
+            return None
+        if body.arg_count != len(bound) or len(body.blocks) > 200:
+            return None
+        inputs = {}
+        for i, v in enumerate(bound):
+            inputs[body.local_name(i + 1)] = v
+        sub = Cases(self.ix, body, inputs)
+        sub.depth = self.depth + 1
+        sub.run()
+        if sub.overflow:
+            return None
+        rets = [p for p in sub.paths if p.end == "return"]
+        others = [p for p in sub.paths if p.end not in ("return", "panic", "unreachable")]
+        if len(rets) != 1 or others:
+            return None
+        p = rets[0]
+        if p.conds or any(e[0] == "store" for e in p.events) or any(e[0] == "call" for e in p.events):
+            return None
+        return p.ret if p.ret is not None and is_known(mir.strip_refs(p.ret)) else None
 
     # ------------------------------------------------------------------------------ exploration
     def run(self):
@@ -296,7 +372,8 @@ class Cases:
                     args = [self.operand(st, a) for a in t["args"]]
                     callee = strip_generics(callee_name(t)) if "indirect" not in t else "<indirect>"
                     res = self.call_result(callee, args)
-                    if not (res[0] == "const" and callee.endswith(("::eq", "::ne", "is_some", "is_none"))):
+                    folded = not (res[0] == "call" and res[1] == callee and res[2] == tuple(args))
+                    if not folded:
                         path.events.append(("call", bi, callee, tuple(args)))
                     if k == "tailcall" or t.get("target") is None:
                         path.end = "panic" if k == "call" else "return"
@@ -354,15 +431,13 @@ class Cases:
         if lhs["p"][0] != "*" and root[0] == "agg":
             st["loc"][lhs["l"]] = self._update(root, lhs["p"], v)
             return
-        # compute the symbolic place without consulting memory for the final element
+        # the place itself (not its current value): inputs and remembered stores do not apply along the way, except that
+        # a reference held in a local is followed to what it points to
         e = root
-        saved = st["mem"]
-        st["mem"] = {}
-        try:
-            for el in lhs["p"]:
-                e = self.project(st, e, el)
-        finally:
-            st["mem"] = saved
+        if 1 <= lhs["l"] <= self.body.arg_count and lhs["l"] not in st["loc"]:
+            e = ("arg", self.body.local_name(lhs["l"]))
+        for el in lhs["p"]:
+            e = self.project(st, e, el, as_place=True)
         t = expr_str(e)
         st["mem"][t] = v
         # forget remembered sub-places of the overwritten place
